@@ -68,11 +68,14 @@ def respell(items, r, only_brackets=False, prob=0.5):
             if alts and (not only_brackets or ch in "{}[]") and r.random() < prob:
                 before = t[j - 1] if j else prev_t[-1:]
                 after = t[j + 1] if j + 1 < len(t) else next_t[:1]
-                if before in RISKY or after in RISKY:
+                # a trigraph is replaced in translation phase 1 whatever surrounds it (also right after a `?`);
+                # a digraph is a token of its own and must not touch < > % : = on either side
+                choices = [a for a in alts if a.startswith("??") or not (before in RISKY or after in RISKY)]
+                if not choices:
                     new.append(ch)
                     continue
                 # parts of multi-character operators keep their partner: ^= |= ||
-                new.append(r.choice(alts))
+                new.append(r.choice(choices))
                 n += 1
             else:
                 new.append(ch)
@@ -92,7 +95,7 @@ def splice(items, r, prob=0.15):
             continue        # C itself continues a // comment over a splice
         if t[-1:].isalnum() and nt[:1].isalnum() or t[-1:] == "_" or nt[:1] == "_" and t[-1:].isalnum():
             continue        # would glue two identifier-like tokens in C
-        if t[-1:] == "\\" or t[-1:] == "?":
+        if t[-1:] == "\\":
             continue
         if r.random() < prob:
             out.append(r.choice(["\\\n", "??/\n"]))
@@ -109,7 +112,7 @@ def strip_cols(o):
 def run_pairs(spec):
     sh = Shard(max_per_sig=3)
     r = random.Random("c12/%s/%d" % (spec["seed"], spec["shard"]))
-    for p, tag in relwork.corpus(spec, nvar=2):
+    for p, tag in relwork.corpus(spec, nvar=2, force=("V31", "V31b")):
         items = flat(p)
         src = p.text()
         assert "".join(t for t, _, _ in items) == src or not p.final_nl
